@@ -15,6 +15,8 @@ use simcore::{Ctx, SchedPolicy, SimSource, Stream::S, Stream::W};
 use std::collections::BTreeMap;
 
 pub struct History {
+    /// a deliberately heavy case (megabytes to inflate or parse): explored under fewer schedules
+    pub heavy: bool,
     pub revisions: Vec<Revision>,
     pub opts: WriterOpts,
     pub written: Written,
@@ -48,8 +50,8 @@ pub fn gen_history(ctx: &Ctx, max_updates: usize, objstm_bias: bool, allow_junk:
         // a handful of generation-0 objects holding very long runs of one byte: with Flate on the
         // containers the file stays a few KiB while the object streams inflate to megabytes
         let mut id = m.objects.keys().map(|k| k.0).max().unwrap_or(0) + 1;
-        for _ in 0..3 + ctx.draw(W, 2, "bomb-objects") {
-            let n = 60_000 + ctx.draw(W, 200_000, "bomb-len") as usize;
+        for _ in 0..3 + ctx.draw(W, 3, "bomb-objects") {
+            let n = 200_000 + ctx.draw(W, 500_000, "bomb-len") as usize;
             m.objects.insert((id, 0), MObj::Str(vec![b'a' + ctx.draw(W, 20, "bomb-byte") as u8; n], false));
             id += 1;
         }
@@ -105,13 +107,16 @@ pub fn gen_history(ctx: &Ctx, max_updates: usize, objstm_bias: bool, allow_junk:
     if big || bomb {
         opts.freedom = 2;
     }
+    if bomb {
+        opts.force_structural_zlib = true;
+    }
     // raw CR / CRLF inside literal strings: only C02 is about string syntax, and there the
     // construct is carved out while the finding is listed as open
     if !allow_raw_cr || crate::known::is_open("raw-cr-eol-in-literal-string") {
         opts.raw_cr_eol = false;
     }
     let written = refwriter::write_history(ctx, &revisions, &opts);
-    History { revisions, opts, written }
+    History { heavy: bomb, revisions, opts, written }
 }
 
 /// What lopdf is expected to report for `expect`: rule R6 — a stream whose
@@ -226,7 +231,7 @@ pub fn c08_schedules(ctx: &Ctx, out: &mut RunOut) -> Result<(), Violation> {
     }
     let mut images: Vec<(Vec<u8>, &'static str)> = vec![(h.written.bytes.clone(), if h.opts.misdesignate { "misdesignated" } else { "valid" })];
     // fault-corrupted variants
-    let n_faulted = if thorough() { 3 } else { 2 };
+    let n_faulted = if h.heavy { 0 } else if thorough() { 3 } else { 2 };
     let hot = hot_spans(&h);
     for _ in 0..n_faulted {
         let mut img = h.written.bytes.clone();
@@ -235,7 +240,7 @@ pub fn c08_schedules(ctx: &Ctx, out: &mut RunOut) -> Result<(), Violation> {
         images.push((img, kind));
     }
     let containers: Vec<u32> = h.written.layout.objstm_containers.iter().flatten().cloned().collect();
-    let n_sched = if thorough() { 24 } else { 8 };
+    let n_sched = if h.heavy { 4 } else if thorough() { 24 } else { 8 };
     let mut distinct_orders = std::collections::BTreeSet::new();
     for (img, kind) in &images {
         ctx.event("c08-image", img.len() as u64, simcore::fnv(img));
@@ -359,7 +364,7 @@ pub fn c08_schedules(ctx: &Ctx, out: &mut RunOut) -> Result<(), Violation> {
             obs.sort();
             obs.dedup();
             let pos: Vec<usize> = obs.iter().filter_map(|k| keys.iter().position(|x| x == k)).collect();
-            let limit = if thorough() { 5 } else { 4 };
+            let limit = if h.heavy { 0 } else if thorough() { 5 } else { 4 };
             if pos.len() == obs.len() && pos.len() >= 2 && pos.len() <= limit {
                 let reference = guarded("load_mem(seq)", || seq::load_outcome(img))?;
                 let mut perm: Vec<usize> = (0..pos.len()).collect();
